@@ -13,8 +13,8 @@ STANDING_ASSUMPTIONS = [
 PROPERTIES = {
     'C16': {
         'units': ['rebuild', 'index', 'keys', 'map'],
-        'sample_functions': ['Store::rebuild#copy_events', 'Lmdb::dump_naddr_deleted', 'Lmdb::dump_deleted', 'Lmdb::key_naddr_index', 'Lmdb::mark_naddr_deleted', 'Lmdb::index'],
-        'not_decided': ['Store::rebuild as a whole (file renames, chown, reopen, the marker and extra-table copy loops) is not under contract; its event-copy loop is (unit rebuild, a statement range); also proved is what the other loops rely on: every deletion marker is dumped once and re-encodes to exactly its key and time (so re-marking reproduces the tables), deleted ids likewise, index(event, offset) adds exactly keys_of(event) (so re-indexing reproduces an event\'s entries), and EventStore::store_event appends only the event bytes plus alignment padding',
+        'sample_functions': ['Store::rebuild#copy_events', 'Store::rebuild#copy_deleted_ids', 'Store::rebuild#copy_deleted_naddrs', 'Lmdb::dump_naddr_deleted', 'Lmdb::dump_deleted', 'Lmdb::key_naddr_index', 'Lmdb::mark_naddr_deleted', 'Lmdb::index'],
+        'not_decided': ['Store::rebuild as a whole (file renames, chown, reopen, the marker and extra-table copy loops) is not under contract; its three copy loops are (unit rebuild, statement ranges: events by id, deleted ids, deleted addresses); also proved is what the other loops rely on: every deletion marker is dumped once and re-encodes to exactly its key and time (so re-marking reproduces the tables), deleted ids likewise, index(event, offset) adds exactly keys_of(event) (so re-indexing reproduces an event\'s entries), and EventStore::store_event appends only the event bytes plus alignment padding',
                         'close-and-reopen is the persistence assumption of the trusted LMDB / mmap contracts'],
     },
     'C07': {
